@@ -449,6 +449,10 @@ func (self Reflect) create(t reflect.Type, m meta.Meta) reflect.Value {
 				case val.FmtDecimal64:
 					return reflect.ValueOf(make(map[float64]interface{}))
 				}
+			} else if len(keyMeta) > 1 {
+				// a map can only be indexed by a single key, entries that share
+				// their first key component would silently be merged
+				return reflect.ValueOf(make([]map[string]interface{}, 0))
 			}
 		}
 		return reflect.ValueOf(make(map[interface{}]interface{}))
